@@ -75,6 +75,19 @@ type Exec struct {
 	entryVars  map[string]Val
 	allocBound *Term
 	vacChecks  []*Obligation
+	localRefs  map[string]bool
+	modTargets []modTarget
+	explicitMod bool
+	loopLocal  map[string]map[string]bool // loop id -> key -> written at a reference that is not a modifies target
+}
+
+// freshRef allocates a new reference in the current state of f.
+func (f *frame) freshRef() Term {
+	x := f.x
+	ref := f.cur.heap.next
+	x.localRefs[ref.S] = true
+	f.cur.heap = x.H.WithNext(f.cur.heap, x.S.Define("next", IntAdd(ref, IntConst(1))))
+	return ref
 }
 
 func (x *Exec) note(format string, a ...interface{}) {
@@ -125,7 +138,11 @@ func (x *Exec) oblName(fnName, class, label string) string {
 
 func (ob *Obligation) Query() string {
 	var b strings.Builder
-	for _, l := range ob.script.lines[:ob.mark] {
+	anc := ob.script.Ancestors(ob.PC)
+	for i, l := range ob.script.lines[:ob.mark] {
+		if g := ob.script.guards[i]; g != "" && !anc[g] {
+			continue
+		}
 		b.WriteString(l)
 		b.WriteByte('\n')
 	}
@@ -378,7 +395,13 @@ func (x *Exec) loadGlobalVar(v *types.Var, h *HeapState) Val {
 // ---------------------------------------------------------------------------
 // Frames.
 
+type havocedKey struct {
+	key    string
+	atHead Term
+}
+
 type loopInfo struct {
+	havoced  []havocedKey
 	id       string
 	ordinal  int
 	head     *ssa.BasicBlock
@@ -584,7 +607,11 @@ func (f *frame) run(st *BState) {
 			if len(conds) == 0 {
 				continue // unreachable
 			}
-			pc := x.S.Define("pc", Or(conds...))
+			var parents []string
+			for _, c := range conds {
+				parents = append(parents, c.S)
+			}
+			pc := x.S.DefinePC(Or(conds...), parents)
 			in = &BState{pc: pc, heap: x.H.Merge(conds, heaps)}
 		}
 		f.cur = &BState{pc: in.pc, heap: in.heap}
@@ -780,14 +807,45 @@ func (f *frame) enterLoop(li *loopInfo, phis []*ssa.Phi) {
 	}
 	var h *HeapState
 	keys := x.loopKeys[li.id]
-	if x.discovery || keys["*"] {
+	if x.discovery {
+		save := x.H.onWrite
+		x.H.onWrite = nil
+		h = x.H.HavocAll(entryHeap)
+		x.H.onWrite = save
+	} else if keys["*"] {
 		h = x.H.HavocAll(entryHeap)
 	} else {
 		var ks []string
 		for k := range keys {
 			ks = append(ks, k)
 		}
-		h = x.H.HavocKeys(entryHeap, ks)
+		sort.Strings(ks)
+		h = entryHeap
+		li.havoced = nil
+		for _, k := range ks {
+			sortK, ok := x.H.sorts[k]
+			if !ok {
+				continue
+			}
+			pre := x.H.Get(entryHeap, k, sortK)
+			var at Term
+			if !x.explicitMod {
+				at = x.S.Declare("hv_"+k, sortK)
+			} else {
+				_, elSort, _ := sortK.ArrParts()
+				at = pre
+				for _, ref := range x.targetRefs(k) {
+					at = Store(at, ref, x.S.Declare("hv_"+k, elSort))
+				}
+				if x.loopLocal[li.id][k] {
+					fresh := x.S.Declare("hv_"+k, sortK)
+					rn := x.S.freshName("r")
+					at = Term{fmt.Sprintf("(lambda ((%s Int)) (ite (>= %s %s) (select %s %s) (select %s %s)))", rn, rn, x.entry.next.S, fresh.S, rn, x.S.Define("hvbase", at).S, rn), sortK}
+				}
+			}
+			h = x.H.Set(h, k, at)
+			li.havoced = append(li.havoced, havocedKey{k, x.H.Get(h, k, sortK)})
+		}
 		nx := x.S.Declare("next", SInt)
 		x.S.Assert(IntLe(entryHeap.next, nx))
 		h = x.H.WithNext(h, nx)
@@ -811,7 +869,7 @@ func (f *frame) enterLoop(li *loopInfo, phis []*ssa.Phi) {
 		if err != nil {
 			abort("loop %d invariant %q: %v", li.ordinal, inv.Text, err)
 		}
-		x.S.Assert(Implies(entryPC, t))
+		x.S.AssertUnder(entryPC, t)
 	}
 	if li.lc.Decreases != nil {
 		v, err := ctx.EvalVal(li.lc.Decreases.Expr)
@@ -864,6 +922,11 @@ func (f *frame) backEdge(b *ssa.BasicBlock, k int, head *ssa.BasicBlock) {
 		abort("back edge bookkeeping")
 	}
 	if li.lc == nil {
+		if x.explicitMod {
+			for _, hk := range li.havoced {
+				x.frameGoal("FRAME-STEP", f.dispName, fmt.Sprintf("loop%d:%s", li.ordinal, hk.key), hk.key, cond, x.H.Get(f.cur.heap, hk.key, x.H.sorts[hk.key]), hk.atHead)
+			}
+		}
 		return
 	}
 	ctx := f.loopEvalCtx(li, f.cur.heap, func(ph *ssa.Phi) Val {
@@ -875,6 +938,11 @@ func (f *frame) backEdge(b *ssa.BasicBlock, k int, head *ssa.BasicBlock) {
 			abort("loop %d invariant %q at back edge: %v", li.ordinal, inv.Text, err)
 		}
 		x.addObligation("INV-STEP", f.dispName, fmt.Sprintf("loop%d:%s", li.ordinal, clauseLabel(inv)), inv.Text, cond, t, nil)
+	}
+	if x.explicitMod {
+		for _, hk := range li.havoced {
+			x.frameGoal("FRAME-STEP", f.dispName, fmt.Sprintf("loop%d:%s", li.ordinal, hk.key), hk.key, cond, x.H.Get(f.cur.heap, hk.key, x.H.sorts[hk.key]), hk.atHead)
+		}
 	}
 	if li.variant != nil {
 		v, err := ctx.EvalVal(li.lc.Decreases.Expr)
@@ -948,7 +1016,7 @@ func (f *frame) set(v ssa.Value, val Val) {
 	f.vals[v] = val
 }
 
-func (f *frame) assume(t Term) { f.x.S.Assert(Implies(f.cur.pc, t)) }
+func (f *frame) assume(t Term) { f.x.S.AssertUnder(f.cur.pc, t) }
 
 // srcLabel renders a short, line-independent label for an instruction from its source expression.
 func (f *frame) srcLabel(kind string, pos token.Pos, want func(ast.Node) bool) string {
@@ -1039,11 +1107,9 @@ func (f *frame) step(ins ssa.Instruction) {
 		return
 	case *ssa.Alloc:
 		elem := t.Type().(*types.Pointer).Elem()
-		ref := f.cur.heap.next
-		h := x.H.WithNext(f.cur.heap, x.S.Define("next", IntAdd(ref, IntConst(1))))
+		ref := f.freshRef()
 		loc := objectLoc(ref, elem)
-		h = x.H.StoreLoc(h, loc, zeroLeaves(elem))
-		f.cur.heap = h
+		f.cur.heap = x.H.StoreLoc(f.cur.heap, loc, zeroLeaves(elem))
 		f.vals[t] = Val{T: []Term{ref}, Typ: t.Type(), Loc: loc}
 	case *ssa.BinOp:
 		f.set(t, f.binop(t))
@@ -1122,8 +1188,7 @@ func (f *frame) step(ins ssa.Instruction) {
 	case *ssa.TypeAssert:
 		f.typeAssert(t)
 	case *ssa.MakeMap:
-		ref := f.cur.heap.next
-		f.cur.heap = x.H.WithNext(f.cur.heap, x.S.Define("next", IntAdd(ref, IntConst(1))))
+		ref := f.freshRef()
 		f.vals[t] = Val{T: []Term{ref}, Typ: t.Type()}
 	case *ssa.MapUpdate:
 		x.note("map contents are not modelled (updates ignored, lookups unconstrained)")
@@ -1297,7 +1362,7 @@ func (f *frame) convert(t *ssa.Convert) {
 				r := x.S.Declare("str", SInt)
 				f.assume(IntLe(IntConst(0), r))
 				f.assume(Eq(x.strLen(r), v.T[2]))
-				x.S.Assert(Implies(f.cur.pc, x.bytesEqStr(f.cur.heap, v, r)))
+				f.assume(x.bytesEqStr(f.cur.heap, v, r))
 				f.set(t, scalar(r, dst))
 				return
 			}
@@ -1310,17 +1375,17 @@ func (f *frame) convert(t *ssa.Convert) {
 	}
 	if sl, ok := dst.Underlying().(*types.Slice); ok && isString(src) {
 		if w, _, _ := isIntType(sl.Elem()); w == 8 {
-			ref := f.cur.heap.next
-			h := x.H.WithNext(f.cur.heap, x.S.Define("next", IntAdd(ref, IntConst(1))))
+			ref := f.freshRef()
+			h := f.cur.heap
 			n := x.strLen(v.One())
 			sv := Val{T: []Term{ref, BVInt(0, 64), n, n}, Typ: dst}
 			// contents: fresh array constrained pointwise
 			key := "M." + heapTypeName(sl.Elem()) + "[]"
 			a := x.H.Get(h, key, wrapSort(SBV(8), 1))
 			inner := x.S.Declare("strbytes", SArr(SBV(64), SBV(8)))
-			h = x.H.Set(h, key, Store(a, ref, inner))
+			h = x.H.SetAt(h, key, ref, Store(a, ref, inner))
 			f.cur.heap = h
-			x.S.Assert(Implies(f.cur.pc, x.bytesEqStr(h, sv, v.One())))
+			f.assume(x.bytesEqStr(h, sv, v.One()))
 			f.set(t, sv)
 			return
 		}
@@ -1487,6 +1552,7 @@ func (f *frame) slice(t *ssa.Slice) {
 	base := f.val(t.X)
 	var arr, off, ln, cp Term
 	var isStr bool
+	fixedN := base.FixedN
 	switch u := t.X.Type().Underlying().(type) {
 	case *types.Slice:
 		arr, off, ln, cp = base.T[0], base.T[1], base.T[2], base.T[3]
@@ -1500,6 +1566,7 @@ func (f *frame) slice(t *ssa.Slice) {
 		arr, off = loc.Ref, BVInt(0, 64)
 		ln = BVInt(at.Len(), 64)
 		cp = ln
+		fixedN = at.Len()
 	case *types.Basic:
 		isStr = true
 		ln = x.strLen(base.One())
@@ -1536,11 +1603,11 @@ func (f *frame) slice(t *ssa.Slice) {
 		n := x.S.Define("n", BVBin("bvsub", hi, lo))
 		f.assume(Eq(x.strLen(r), n))
 		j := x.S.freshName("j")
-		x.S.Assert(Implies(f.cur.pc, Term{fmt.Sprintf("(forall ((%s (_ BitVec 64))) (=> (bvult %s %s) (= (strbyte %s %s) (strbyte %s (bvadd %s %s)))))", j, j, n.S, r.S, j, base.One().S, lo.S, j), SBool}))
+		f.assume(Term{fmt.Sprintf("(forall ((%s (_ BitVec 64))) (=> (bvult %s %s) (= (strbyte %s %s) (strbyte %s (bvadd %s %s)))))", j, j, n.S, r.S, j, base.One().S, lo.S, j), SBool})
 		f.set(t, scalar(r, t.Type()))
 		return
 	}
-	f.set(t, Val{T: []Term{arr, BVBin("bvadd", off, lo), BVBin("bvsub", hi, lo), BVBin("bvsub", mx, lo)}, Typ: t.Type()})
+	f.set(t, Val{T: []Term{arr, BVBin("bvadd", off, lo), BVBin("bvsub", hi, lo), BVBin("bvsub", mx, lo)}, Typ: t.Type(), FixedN: fixedN})
 }
 
 func elemSize(t types.Type) int64 {
@@ -1583,12 +1650,12 @@ func (f *frame) makeSlice(t *ssa.MakeSlice) {
 // newSlice allocates a zeroed backing array.
 func (f *frame) newSlice(elem types.Type, ln, cp Term, typ types.Type) Val {
 	x := f.x
-	ref := f.cur.heap.next
-	h := x.H.WithNext(f.cur.heap, x.S.Define("next", IntAdd(ref, IntConst(1))))
+	ref := f.freshRef()
+	h := f.cur.heap
 	for _, lf := range leaves(elem) {
 		key := "M." + heapTypeName(elem) + "[]" + lf.Path
 		a := x.H.Get(h, key, wrapSort(lf.Sort, 1))
-		h = x.H.Set(h, key, Store(a, ref, ConstArray(SArr(SBV(64), lf.Sort), zeroOfSort(lf.Sort))))
+		h = x.H.SetAt(h, key, ref, Store(a, ref, ConstArray(SArr(SBV(64), lf.Sort), zeroOfSort(lf.Sort))))
 	}
 	f.cur.heap = h
 	return Val{T: []Term{ref, BVInt(0, 64), ln, cp}, Typ: typ}
